@@ -2,7 +2,7 @@
    Only property theorems, each closed by quoting lemmas proved elsewhere, and Print Assumptions.
    Generated from Properties/bodies/C02.v.in by mkprop.py (shared preamble: hdr.txt, sec.txt). *)
 From Coq Require Import Arith NArith Bool List Lia.
-Require Import Canon SemTk CountTk TableProto BddBase BddIte BddCR BddSat BddCof BddCof2 BddCtor BddEval BddPaths BddPathsCount BddReach BddExport BddDot BddMinimal BddTerm Glue Machine Reachable OpSpecs.
+Require Import Canon SemTk CountTk TableProto BddBase BddIte BddCR BddSat BddCof BddCof2 BddCtor BddEval BddPaths BddPathsCount BddReach BddExport BddDot BddMinimal BddTerm BddTerm2 Glue Machine Reachable OpSpecs FuelMono FuelMono2.
 Import ListNotations.
 Local Open Scope N_scope.
 
@@ -67,6 +67,21 @@ Section C02.
   Theorem C02_only_storage_full_stops s nd :
     cTInv nhash s -> cput_node nhash s nd = None -> storage_full node (tbl s).
   Proof. exact (cput_none_storage_full nhash s nd). Qed.
+  (* a missing result is never an out-of-fuel artefact: above a bound the ITE line gives the same outcome -- the same new
+     state and handle, or no result -- for every amount of fuel (`BddTerm.ite_down`: one unit less gives the same result;
+     `FuelMono.ite_S`: one unit more does).  Unlike the "table is full somewhere" conclusion above, which any state of a
+     finite table can be extended to satisfy, this statement is informative for the concrete manager. *)
+  Theorem C02_ite_fuel_irrelevant mr f g h rf rg rh :
+    reachable mr -> liveh mr f rf -> liveh mr g rg -> liveh mr h rh ->
+    exists bound, forall fuel fuel', (bound <= fuel)%nat -> (bound <= fuel')%nat ->
+      mstep fuel mr (HIte f g h) = mstep fuel' mr (HIte f g h).
+  Proof. exact (ite_step_fuel_irrelevant nhash khash bmask cmask0 smask0 capacity cap_ok mr f g h rf rg rh). Qed.
+  (* for EVERY operation line and every history: more fuel never changes a result that was obtained *)
+  Theorem C02_more_fuel_same_result k k' mr o x : (k <= k')%nat -> mstep k mr o = Some x -> mstep k' mr o = Some x.
+  Proof. exact (step_mono nhash khash k k' mr o x). Qed.
+  Theorem C02_more_fuel_same_run k k' h mr x : (k <= k')%nat ->
+    Reachable.mrun nhash khash k mr h = Some x -> Reachable.mrun nhash khash k' mr h = Some x.
+  Proof. intro Hle. exact (run_mono nhash khash k k' Hle h mr x). Qed.
 End C02.
 
 Print Assumptions C02_ite_sound.
@@ -76,3 +91,6 @@ Print Assumptions C02_ite_fuel_bound.
 Print Assumptions C02_ite_terminates_abstract.
 Print Assumptions C02_ite_terminates_total_store.
 Print Assumptions C02_only_storage_full_stops.
+Print Assumptions C02_ite_fuel_irrelevant.
+Print Assumptions C02_more_fuel_same_result.
+Print Assumptions C02_more_fuel_same_run.
